@@ -303,7 +303,7 @@ Inductive payload :=
 | PNone
 | POk                                  (* JSON "OK" *)
 | PList (mb : str) (l : list view)     (* JSON list of headers *)
-| PMsg (mb : str) (v : view)           (* v1 JSON message *)
+| PMsg (mb : str) (rid : str) (v : view)   (* v1 JSON message; [rid] = the id AS REQUESTED (it appears in the attachment links) *)
 | PUi (mb : str) (v : view)            (* web-UI JSON message *)
 | PSrc (v : view)                      (* raw source *)
 | PHtml (v : view)                     (* HTML part *)
@@ -314,11 +314,11 @@ Definition resp := (status * payload)%type.
 
 Inductive bodyk := BTrue | BFalse | BBad.
 
-Definition h_show (mb : str) (r : option view * err) : resp :=
+Definition h_show (mb : str) (rid : str) (r : option view * err) : resp :=
   match r with
   | (_, EOther) => (S500, PNone)
   | (None, _) => (S404, PNone)
-  | (Some v, _) => (S200, PMsg mb v)
+  | (Some v, _) => (S200, PMsg mb rid v)
   end.
 
 Definition h_uimsg (mb : str) (r : option view * err) : resp :=
@@ -367,6 +367,88 @@ Definition h_unit (e : err) : resp :=
 Definition h_purge (e : err) : resp :=
   match e with ENil => (S200, POk) | _ => (S500, PNone) end.
 
+(* ------------------------------------------------------------------ JSON models *)
+
+(** Field by field what the handlers put into their JSON answers (pkg/rest/model/apiv1_model.go,
+    pkg/webui/mailbox_json.go), as functions of the mailbox name the handler resolved and of the
+    stored message. from / to / subject / text / html / attachment content are determined by
+    the content tag (the drivers generate every one of them from it and recover the tag from
+    each field separately), so each such field is "the tag as read from that field". *)
+Record jheader := {
+  jh_mailbox : str;        (* "mailbox": the canonical name the handler resolved *)
+  jh_id : nat;             (* "id": the store's id of the message (as its handle number) *)
+  jh_from : N; jh_to : N; jh_subject : N;     (* "from", "to", "subject" *)
+  jh_date : Z;             (* "date" (RFC 3339 instant, as milliseconds) *)
+  jh_millis : Z;           (* "posix-millis" *)
+  jh_size : N;             (* "size": bytes of the stored source *)
+  jh_seen : bool           (* "seen" *)
+}.
+
+Definition jheader_of (mb : str) (v : view) : jheader :=
+  let m := snd v in
+  {| jh_mailbox := mb; jh_id := fst v; jh_from := m_tag m; jh_to := m_tag m; jh_subject := m_tag m;
+     jh_date := m_date m; jh_millis := m_date m; jh_size := m_size m; jh_seen := m_seen m |}.
+
+(** One attachment of the v1 message: file name and content type are fixed by the generator
+    ("a.bin", application/octet-stream), "md5" is that of the attachment content (the tag),
+    download-link = view-link = http://host/serve/mailbox/<mailbox>/<id AS REQUESTED>/attach/<i>/<file>
+    (no base path). *)
+Record jattach := { ja_md5 : N; ja_link_mb : str; ja_link_id : str; ja_link_num : N }.
+
+Record jmessage := {
+  jm_h : jheader;
+  jm_text : N;                          (* "body"."text" *)
+  jm_html : option N;                   (* "body"."html" (None: empty) *)
+  jm_hdr_from : N; jm_hdr_to : N; jm_hdr_subject : N;     (* "header": From / To / Subject of the MIME header *)
+  jm_atts : list jattach                (* "attachments" *)
+}.
+
+Definition jatts_of (mb rid : str) (tag : N) : list jattach :=
+  if att_count tag =? 0 then [] else [{| ja_md5 := tag; ja_link_mb := mb; ja_link_id := rid; ja_link_num := 0 |}].
+
+Definition jmessage_of (mb rid : str) (v : view) : jmessage :=
+  let tag := m_tag (snd v) in
+  {| jm_h := jheader_of mb v; jm_text := tag; jm_html := if has_html tag then Some tag else None;
+     jm_hdr_from := tag; jm_hdr_to := tag; jm_hdr_subject := tag; jm_atts := jatts_of mb rid tag |}.
+
+(** The web-UI message: "text" is web.TextToHTML of the text part, "html" the sanitised HTML
+    part, attachments are listed as (id = index, file name, content type), "errors" are the
+    MIME errors (none for the generated messages). *)
+Record juimessage := {
+  ju_h : jheader; ju_text : N; ju_html : option N;
+  ju_hdr_from : N; ju_hdr_to : N; ju_hdr_subject : N;
+  ju_atts : list N;                     (* the ids "0", "1", … *)
+  ju_errors : N
+}.
+
+Definition juimessage_of (mb : str) (v : view) : juimessage :=
+  let tag := m_tag (snd v) in
+  {| ju_h := jheader_of mb v; ju_text := tag; ju_html := if has_html tag then Some tag else None;
+     ju_hdr_from := tag; ju_hdr_to := tag; ju_hdr_subject := tag;
+     ju_atts := if att_count tag =? 0 then [] else [0]; ju_errors := 0 |}.
+
+(** What a payload looks like on the wire, field by field. *)
+Inductive jbody :=
+| JNone | JOk
+| JHeaders (l : list jheader)
+| JMessage (m : jmessage)
+| JUiMessage (m : juimessage)
+| JSource (tag : N) | JHtml (tag : option N) | JAttachment (tag num : N)
+| JLocation (p : str).
+
+Definition render (p : payload) : jbody :=
+  match p with
+  | PNone => JNone
+  | POk => JOk
+  | PList mb l => JHeaders (map (jheader_of mb) l)
+  | PMsg mb rid v => JMessage (jmessage_of mb rid v)
+  | PUi mb v => JUiMessage (juimessage_of mb v)
+  | PSrc v => JSource (m_tag (snd v))
+  | PHtml v => JHtml (if has_html (m_tag (snd v)) then Some (m_tag (snd v)) else None)
+  | PAtt v num => JAttachment (m_tag (snd v)) num
+  | PLoc p => JLocation p
+  end.
+
 (* ------------------------------------------------------------------ server *)
 
 Section Server.
@@ -392,7 +474,7 @@ Definition run_handler (st : spec_store) (h : hid) (name id num : str) (body : b
       match h with
       | HList => let '(_, o, _) := exec_spec cfg st (Lst mb) in (st, (S200, PList mb (list_res o)))
       | HPurge => let '(st', o, _) := exec_spec cfg st (Purge mb) in (st', h_purge (err_of_res (unit_res o)))
-      | HShow => (st, h_show mb (mgr_get (st_get st mb id)))
+      | HShow => (st, h_show mb id (mgr_get (st_get st mb id)))
       | HSeen =>
           match body with
           | BBad => (st, (S500, PNone))
@@ -492,7 +574,7 @@ Definition spec_handler (st : spec_store) (h : hid) (name id num : str) (body : 
       match h with
       | HList => let '(_, o, _) := exec_spec cfg st (Lst mb) in Some (st, (S200, PList mb (list_res o)))
       | HPurge => let '(st', _, _) := exec_spec cfg st (Purge mb) in Some (st', (S200, POk))
-      | HShow => on_msg (fun v => (S200, PMsg mb v))
+      | HShow => on_msg (fun v => (S200, PMsg mb id v))
       | UMsg => on_msg (fun v => (S200, PUi mb v))
       | HSrc | USrc => on_msg (fun v => (S200, PSrc v))
       | UHtml => on_msg (fun v => (S200, PHtml v))
@@ -569,7 +651,7 @@ Definition c_list cbase st name : spec_store * cres :=
 
 Definition c_get cbase st name id : spec_store * cres :=
   let '(st', r) := client_send cbase st GET (client_uri name [id]) BBad in
-  match r with (S200, PMsg mb v) => (st', COkMsg mb v) | _ => (st', CErr) end.
+  match r with (S200, PMsg mb _ v) => (st', COkMsg mb v) | _ => (st', CErr) end.
 
 Definition c_src cbase st name id : spec_store * cres :=
   let '(st', r) := client_send cbase st GET (client_uri name [id; s_source]) BBad in
